@@ -133,6 +133,32 @@ func main() {
 			die(2, "%v", err)
 		}
 		os.Exit(code)
+	case "selftest":
+		// vsim selftest determinism <id> [scenarios] [repeats]
+		if os.Args[2] != "determinism" || len(os.Args) < 4 {
+			die(2, "usage: vsim selftest determinism <id> [scenarios] [repeats]")
+		}
+		prop, ok := props.All()[os.Args[3]]
+		if !ok {
+			die(2, "unknown property")
+		}
+		scen, reps := 20, 30
+		if len(os.Args) > 4 {
+			scen, _ = strconv.Atoi(os.Args[4])
+		}
+		if len(os.Args) > 5 {
+			reps, _ = strconv.Atoi(os.Args[5])
+		}
+		env, err := sim.Build(verifDir(), repoDir(), os.Args[3]+"d", false)
+		if err != nil {
+			die(2, "%v", err)
+		}
+		code, err := sim.Determinism(env, prop, "quick", 1, scen, reps, runtime.NumCPU())
+		env.Close()
+		if err != nil {
+			die(2, "%v", err)
+		}
+		os.Exit(code)
 	default:
 		die(2, "unknown command %q", os.Args[1])
 	}
